@@ -1,0 +1,94 @@
+//go:build verif
+
+// Package verifhook provides named schedule points for the
+// verification harness (build tag "verif"): the harness can make the
+// goroutine that reaches a point for the k-th time sleep, so that the
+// rest of the system runs to quiescence first, or perturb schedules
+// pseudo-randomly at every point.
+package verifhook
+
+import (
+	"math/rand"
+	"runtime"
+	"sync"
+	"time"
+)
+
+// Rule delays the Occurrence-th arrival (1-based; 0 = every arrival)
+// at a point by Sleep.
+type Rule struct {
+	Occurrence int
+	Sleep      time.Duration
+}
+
+var (
+	mu      sync.Mutex
+	rules   = map[string]Rule{}
+	counts  = map[string]int{}
+	perturb *rand.Rand
+	prob    int
+)
+
+// Set installs the rules (replacing earlier ones) and resets counters.
+func Set(r map[string]Rule) {
+	mu.Lock()
+	defer mu.Unlock()
+	rules = map[string]Rule{}
+	for k, v := range r {
+		rules[k] = v
+	}
+	counts = map[string]int{}
+}
+
+// Perturb makes every point yield or sleep briefly with probability
+// percent/100, driven by seed. percent = 0 switches it off.
+func Perturb(seed int64, percent int) {
+	mu.Lock()
+	defer mu.Unlock()
+	prob = percent
+	if percent > 0 {
+		perturb = rand.New(rand.NewSource(seed))
+	} else {
+		perturb = nil
+	}
+}
+
+// Counts returns how often each point was reached since the last Set.
+func Counts() map[string]int {
+	mu.Lock()
+	defer mu.Unlock()
+	out := map[string]int{}
+	for k, v := range counts {
+		out[k] = v
+	}
+	return out
+}
+
+// Point is a named schedule point.
+func Point(name string) {
+	mu.Lock()
+	counts[name]++
+	n := counts[name]
+	r, ok := rules[name]
+	var d time.Duration
+	if ok && (r.Occurrence == 0 || r.Occurrence == n) {
+		d = r.Sleep
+	}
+	action := 0
+	if perturb != nil && perturb.Intn(100) < prob {
+		action = 1 + perturb.Intn(3)
+	}
+	mu.Unlock()
+
+	if d > 0 {
+		time.Sleep(d)
+	}
+	switch action {
+	case 1:
+		runtime.Gosched()
+	case 2:
+		time.Sleep(time.Duration(20) * time.Microsecond)
+	case 3:
+		time.Sleep(time.Duration(200) * time.Microsecond)
+	}
+}
